@@ -64,13 +64,27 @@ func init() {
 		os.RemoveAll(dirs[d])
 		delete(dirs, d)
 	}
-	cgStateNative = func(d *sql.SwappableDB) string {
-		out := d.VerifC15bSettings()
+	// The state before a call is taken WITHOUT opening a read-only connection (SQLite leaves WAL mode
+	// only when no other connection is open, so looking first would hide a journal-mode change); the
+	// read-only settings every database starts with are read once from a throw-away database opened
+	// in the same way.
+	roBaseline := ""
+	cgStateNative = func(d *sql.SwappableDB, before bool) string {
+		out := "rw:" + d.VerifC15bSettings(false)
 		b, err := os.ReadFile(d.Path())
 		if err != nil {
 			panic(err)
 		}
-		return out + fmt.Sprintf("main=%d:%x", len(b), sha256.Sum256(b))
+		out += fmt.Sprintf(" main=%d:%x", len(b), sha256.Sum256(b))
+		if !before {
+			return out + " ro:" + d.VerifC15bSettings(true)
+		}
+		if roBaseline == "" {
+			t := cgOpenNative()
+			roBaseline = t.VerifC15bSettings(true)
+			cgCloseNative(t)
+		}
+		return out + " ro:" + roBaseline
 	}
 }
 
@@ -81,9 +95,9 @@ func TestVerifC15bTexts(t *testing.T) {
 	run := func(q string, shape int) (changed bool, detail string) {
 		d := cgOpenNative()
 		defer cgCloseNative(d)
-		before := cgStateNative(d)
+		before := cgStateNative(d, true)
 		d.Execute(&proto.Request{Statements: []*proto.Statement{{Sql: q, Parameters: cgParams(shape)}}}, false)
-		after := cgStateNative(d)
+		after := cgStateNative(d, false)
 		return before != after, before + " -> " + after
 	}
 	for _, q := range cgGuarded {
@@ -98,6 +112,24 @@ func TestVerifC15bTexts(t *testing.T) {
 			if changed, detail := run(q, shape); changed {
 				t.Errorf("harmless text %q with parameter shape %d changes a guarded setting: %s", q, shape, detail)
 			}
+		}
+	}
+}
+
+// TestVerifC15bReadOnlyModel: the model's answer for StmtReadOnly (cgSwStmtReadOnly) is SQLite's for
+// every text of the two tables (it decides whether the unified endpoint serves a request locally or
+// through the log, so a replay follows the symbolic path only if the two agree).
+func TestVerifC15bReadOnlyModel(t *testing.T) {
+	d := cgOpenNative()
+	defer cgCloseNative(d)
+	for _, q := range append(append([]string{}, cgGuarded...), cgHarmless...) {
+		ro, err := d.StmtReadOnly(q)
+		if err != nil {
+			t.Errorf("StmtReadOnly(%q): %v", q, err)
+			continue
+		}
+		if ro != cgModelReadOnly(q) {
+			t.Errorf("StmtReadOnly(%q) = %v, the model says %v", q, ro, cgModelReadOnly(q))
 		}
 	}
 }
